@@ -534,6 +534,27 @@ def alloc_rule(ctx, scope):
             ctx.ob('ALLOC', '%s/%s' % (fl, c.rsplit('::', 1)[1]), False, short_loc(t.get('span')),
                    'allocation-capable call %s on the datum decode path outside the error constructors' % c)
     ctx.floor('ALLOC', 'allocation-capable call sites examined', n, 4)
+    # ... "failure path only" is a fact about the CALL SITES of the error constructors: a `DeError` built eagerly -
+    # `checked_sub(size).ok_or(DeError::custom(..))?` - formats and boxes its message on every successful decode.  A
+    # DeError is built either inside a closure that returns it (run by ok_or_else / map_err on failure) or at a point from
+    # which every path returns Err.
+    m, eager = 0, []
+    for b in scope:
+        fl = fn_label(b)
+        base = fl.split('::{closure')[0]
+        if base.startswith('de::error::') or base.startswith('<de::error::'):
+            continue
+        for bb, t in b.calls():
+            d = t.get('dest') or {}
+            if b.is_cleanup(bb) or d.get('p') or not (b.local_ty(d.get('l', 0)) or '').endswith('de::error::DeError'):
+                continue
+            m += 1
+            lazy = b.j['kind'] == 'closure' and 'Result' not in (b.local_ty(0) or '')
+            if not (lazy or ('target' in t and all_paths_err(b, t['target']))):
+                eager.append('%s at %s' % (short_fn(fl), short_loc(t.get('span'))))
+    ctx.ob('ALLOC', 'errors-built-on-failure-paths-only', not eager, None,
+           '%d sites build a DeError on the decode path; built where an Ok return is still reachable: %s' % (m, eager or 'none'))
+    ctx.floor('ALLOC', 'DeError construction sites examined', m, 20)
     # error constructors are only reached on failure paths: they return DeError (never part of an Ok value)
     # (structural: their return type is DeError)
     for b in scope:
